@@ -18,6 +18,9 @@ CONSTANTS
   CleanSC = "sf-"
   CountRule = "impl"
   EagerCount = FALSE
+  Holds = FALSE
+  MaxTick = 0
+  TickGuard = "impl"
 VIEW view
 INVARIANTS TypeOK ReadsIsolated KeyMatchesRecord ImplEmitsSound ImplExpelsMatchMajority
 PROPERTIES EmitSound CleanReleases
